@@ -55,8 +55,9 @@ def atan2_model(S, st, args):
     sv, cv = sv.n, cv.n
     yn, yd, xn, xd = y.n, y.d, x.n, x.d
     nz = z3.Or(xn != 0, yn != 0) if not (x.conc() and y.conc()) else bool(x.frac() != 0 or y.frac() != 0)
-    some = z3.And(h > 0, h * h * (yd * yd) * (xd * xd) == yn * yn * (xd * xd) + xn * xn * (yd * yd), sv * h * yd == yn, cv * h * xd == xn,
-                  t * t >= sv * sv)      # |sin t| <= |t| for every real t: the only numeric link between the angle and its sine that is used
+    some = z3.And(h > 0, h * h * (yd * yd) * (xd * xd) == yn * yn * (xd * xd) + xn * xn * (yd * yd), sv * h * yd == yn, cv * h * xd == xn)
+    if getattr(S, 'atan2_angle_bound', False):
+        some = z3.And(some, t * t >= sv * sv)      # |sin t| <= |t| for every real t: the only numeric link between the angle and its sine (opt-in: it costs nlsat dearly)
     none = z3.And(t == 0, sv == 0, cv == 1)
     if nz is True: st.pc.append(some)
     elif nz is False: st.pc.append(none)
